@@ -88,7 +88,22 @@ func runFunction(vc *VC, u *Universe, pi *PkgInfo, fc *FuncContract, fn *ssa.Fun
 		v := x.havocParam(&st, fv.Type(), "fv."+fv.Name())
 		fr.env[fv] = v
 	}
+	fr.ghosts = map[string]Value{}
+	for _, g := range fc.GhostVars {
+		s := vc.decl("g."+g.Name, m.specSort(g.Type))
+		t, _ := basicByName(g.Type)
+		if t != nil {
+			if it, ok := intTyOf(t); ok {
+				vc.assume(m.inRange(s, it))
+			}
+		}
+		fr.ghosts[g.Name] = Value{K: KScalar, T: t, X: s}
+		vc.inputSyms = append(vc.inputSyms, InputSym{Param: "ghost " + g.Name, Sym: s.Op})
+	}
 	fr.entry = st.clone()
+	if fc.Where != nil {
+		fr.whereSym = vc.decl("g.where", SBool)
+	}
 	// receiver non-nil
 	if fn.Signature.Recv() != nil && len(fr.params) > 0 && fr.params[0].K == KPtr {
 		vc.assume(Not(Eq(fr.params[0].Loc.Root, nilRef)))
@@ -99,6 +114,11 @@ func runFunction(vc *VC, u *Universe, pi *PkgInfo, fc *FuncContract, fn *ssa.Fun
 	}
 	for _, us := range fc.Uses {
 		vc.assume(x.lemmaInstance(env, us))
+	}
+	if fc.Where != nil {
+		// g.where stands for any hypothesis at least as strong as the where-clause
+		wenv := x.entryEnv(fr, &st)
+		vc.assume(Implies(fr.whereSym, wenv.evalBool(fc.Where.Expr)))
 	}
 	nPre := len(vc.items)
 	// cover: preconditions satisfiable
@@ -114,7 +134,7 @@ func runFunction(vc *VC, u *Universe, pi *PkgInfo, fc *FuncContract, fn *ssa.Fun
 			resT = fn.Signature.Results().At(0).Type()
 		}
 		res, fin := x.mergeRets("final", fr.rets, resT)
-		post := &CEnv{x: x, fr: fr, st: &fin, old: &fr.entry, pkg: pi, mode: m, vars: env.vars, hasResult: true, result: res, sig: fn.Signature}
+		post := &CEnv{x: x, fr: fr, st: &fin, old: &fr.entry, pkg: pi, mode: m, vars: env.vars, hasResult: true, result: res, sig: fn.Signature, goal: true, ghostsOK: true}
 		// cover: some return reachable
 		vc.obls = append(vc.obls, &Obl{Name: vc.fnName + "#cover.ret", Kind: "cover", Goal: Not(fin.Reach), N: len(vc.items), Desc: "a normal return is reachable", Fn: vc.fnName, VC: vc, Expect: "sat", Pos: x.posOf(fn, fn.Pos())})
 		var splits []*Term
@@ -307,9 +327,11 @@ func (x *Exec) lemmaInstance(env *CEnv, us *Clause) *Term {
 		inst.vars[p.Name] = v
 	}
 	var req, ens []*Term
+	inst.goal = true
 	for _, r := range lm.Requires {
 		req = append(req, inst.evalBool(r.Expr))
 	}
+	inst.goal = false
 	for _, r := range lm.Ensures {
 		ens = append(ens, inst.evalBool(r.Expr))
 	}
@@ -385,9 +407,11 @@ func genLemma(u *Universe, pi *PkgInfo, lm *Lemma) (res *VerifyResult) {
 					}
 				}
 			}
+			inst.goal = true
 			for _, r := range lm.Requires {
 				req = append(req, inst.evalBool(r.Expr))
 			}
+			inst.goal = false
 			for _, r := range lm.Ensures {
 				ens = append(ens, inst.evalBool(r.Expr))
 			}
@@ -415,6 +439,7 @@ func genLemma(u *Universe, pi *PkgInfo, lm *Lemma) (res *VerifyResult) {
 		return
 	}
 	vc.obls = append(vc.obls, &Obl{Name: name + "#cover.pre", Kind: "cover", Goal: TFalse, N: len(vc.items), Desc: "lemma hypotheses are satisfiable", Fn: name, VC: vc, Expect: "sat"})
+	env.goal = true
 	for k, en := range lm.Ensures {
 		g := env.evalBool(en.Expr)
 		o := vc.oblige("lemma", g, token.Position{Filename: pi.Contracts.File, Line: lm.Line}, fmt.Sprintf("lemma %s conclusion %d: %s", lm.Name, k+1, en.Src))
